@@ -163,6 +163,7 @@ def SeqUnique (rows : List Row) : Prop := ∀ a ∈ rows, ∀ b ∈ rows, a.seq 
     and the three per-channel indexes agree with the rows in both directions -/
 structure ChanInv (ch : Chan) : Prop where
   uniq : SeqUnique ch.rows
+  nodup : ch.rows.Pairwise (fun a b => a.seq ≠ b.seq)
   nz : ∀ r ∈ ch.rows, r.id ≠ 0 ∧ r.seq ≠ 0
   noHoles : ∀ s, floorOf ch < s → s ≤ recoverLEO ch → ∃ r ∈ ch.rows, r.seq = s
   cache : ∀ l, ch.leoC = some l → l = recoverLEO ch
